@@ -265,6 +265,15 @@ class HMat:
         self.cols = [SpatialVec(c[0], c[1]) for c in o.cols]
         return self
     def __mul__(self, u):
+        if isinstance(u, Mat):          # HType * Mat<dof,n> (added for C01/C02: G = PH * DI)
+            assert u.nr == self.dof
+            out = []
+            for j in range(u.nc):
+                c = self.cols[0] * u.m[0][j]
+                for k in range(1, self.dof):
+                    c = c + self.cols[k] * u.m[k][j]
+                out.append(c)
+            return HMat(u.nc, out)
         u = list(u)
         assert len(u) == self.dof
         w = self.cols[0][0] * u[0]; v = self.cols[0][1] * u[0]
@@ -272,6 +281,11 @@ class HMat:
             w = w + self.cols[j][0] * u[j]; v = v + self.cols[j][1] * u[j]
         return SpatialVec(w, v)
     def __sub__(self, o): return HMat(self.dof, [a - b for a, b in zip(self.cols, o.cols)])
+    # --- additions for the dynamics kernels (C01/C02); C03/C05 do not use them ---
+    def __add__(self, o): return HMat(self.dof, [a + b for a, b in zip(self.cols, o.cols)])
+    def __invert__(self): return HMatT(self)
+    def row(self, i): return self[i]
+    def col(self, j): return self.cols[j]
     def __rmul__(self, m):
         if isinstance(m, Mat):      # Mat33 * HType acts on every Vec3 element
             return HMat(self.dof, [SpatialVec(m * c[0], m * c[1]) for c in self.cols])
@@ -280,9 +294,36 @@ class HMat:
         return [x for c in self.cols for x in c.flat()]
 
 
+class HMatT:
+    """~HType = Mat<dof,2,Row3>: (~H)*SpatialVec -> Vec<dof>, (~H)*HType -> Mat<dof,n> (added for C01/C02)"""
+    def __init__(self, h): self.h = h
+    def __invert__(self): return self.h
+    def __mul__(self, o):
+        if isinstance(o, SpatialVec):
+            return Vec([(~c) * o for c in self.h.cols])
+        if isinstance(o, HMat):
+            return Mat([[(~c) * d for d in o.cols] for c in self.h.cols])
+        return NotImplemented
+
+
+class HRowT:
+    """~Row<dof,Vec3> = Vec<dof,Row3> (added for C01/C02)"""
+    def __init__(self, r): self.r = r
+    def __invert__(self): return self.r
+
+
 class HRow:
     """Row<dof,Vec3>"""
     def __init__(self, e): self.e = list(e)
+    def __invert__(self): return HRowT(self)
+    def __mul__(self, o):
+        if isinstance(o, HRowT):          # Row<dof,Vec3> * Vec<dof,Row3> = sum of outer products (Mat33)
+            assert len(o.r.e) == len(self.e)
+            m = self.e[0] * (~o.r.e[0])
+            for k in range(1, len(self.e)):
+                m = m + self.e[k] * (~o.r.e[k])
+            return m
+        return NotImplemented
     def __neg__(self): return HRow([-x for x in self.e])
     def __sub__(self, o): return HRow([a - b for a, b in zip(self.e, o.e)])
     def __add__(self, o): return HRow([a + b for a, b in zip(self.e, o.e)])
